@@ -54,7 +54,15 @@ def suite_ok(wt):
             continue
         if e.get("Action") == "fail" and e.get("Test"):
             failed.add(e["Test"].split("/")[0])
-    return failed - NETWORK
+    failed -= NETWORK
+    # timing-sensitive tests (e.g. piececache TestTTL) flake when the machine is loaded:
+    # a failure counts only if it repeats when the test is run alone
+    real = set()
+    for t in sorted(failed):
+        rc2, out2 = sh(["go", "test", "-vet=off", "-count=1", "-run", "^" + t + "$", "./..."], cwd=wt, timeout=900)
+        if rc2 != 0 and "--- FAIL: " + t in out2:
+            real.add(t)
+    return real
 
 
 def run_checks(patch, props):
